@@ -381,6 +381,34 @@ def run(ctx, chk, tier="quick"):
         s = ins[0]
         z = s.params_node
         colnames = s.stmt.columns
+        # the flags of every classified record are stored: every path through the function to a normal return passes the INSERT
+        from ..cfg import ENTRY
+        ins_node = gflow.cfg.node_containing(s.call)
+        if ins_node is None:
+            chk.indeterminate("C04.O4", where_of(g, s.call), "INSERT INTO grid_time_flags: statement not in the flow graph")
+        else:
+            every = gflow.cfg.postdominates(ins_node, ENTRY)
+            skip = None
+            if not every:
+                for r_ in ast.walk(g.node):
+                    if isinstance(r_, ast.Return) and enclosing_func(r_) is g.node:
+                        rn_ = gflow.cfg.node(r_)
+                        if rn_ is not None and rn_ in gflow.cfg.reachable_from(ENTRY, avoiding={ins_node}):
+                            skip = r_
+                            break
+            guard_ = getattr(skip, "parent", None) if skip is not None else None
+            while guard_ is not None and not isinstance(guard_, (ast.If, ast.FunctionDef)):
+                guard_ = getattr(guard_, "parent", None)
+            gtxt_ = ast.unparse(guard_.test) if isinstance(guard_, ast.If) else ""
+            if not every and any(t_ in gtxt_ for t_ in ("len(", ".size", ".shape")):
+                # a return for a record with no samples at all stores nothing because there is nothing to store
+                chk.indeterminate("C04.O4", where_of(g, skip), "a path skips INSERT INTO grid_time_flags under `%s`: whether that is only the empty record is not decided" % gtxt_[:60])
+            else:
+              chk.ob("C04.O4", every, where_of(g, skip if skip is not None else s.call),
+                   "INSERT INTO grid_time_flags is %s" % ("on every path to a normal return" if every else
+                                                          "skipped by a path through the function%s" % (" (return at line %d)" % skip.lineno if skip is not None else "")),
+                   "every record that is classified gets its per-time-step flags", key="classify_interstorms|flags-every-path",
+                   why="a record with no interstorm sample (no rain at all, rain in every step) is classified like any other; without its rows the stored flags do not agree with the definitions")
         want_roles = {"start_epoch": "epoch", "is_jump": "jump", "is_mystery_jump": "mystery", "is_interstorm": "interstorm"}
         jump_flag_name = a_jump.id if isinstance(a_jump, ast.Name) else None
         var_role = {epoch_name: "epoch", jump_flag_name: "jump", mys_name: "mystery", inter_name: "interstorm"}
